@@ -42,6 +42,15 @@ def config(rng, n):
 
 def cases(rng, tier, shard, nshards):
     total = META['quick_cases'] if tier == 'quick' else META['thorough_cases']
+    if shard < (2 if tier == 'quick' else 6):
+        # a long curve that the simplifier keeps in full (thousands of reduced points) and whose knees peel off next to the
+        # left end: the decomposition is a chain about n/2 levels deep
+        n = int(rng.integers(2500, 3400))
+        x = np.arange(1, n + 1, dtype=float)
+        c = config(rng, n)
+        c.update({'points': np.ascontiguousarray(np.column_stack((x, 1000.0 / x))), 'family': 'hyperbola-long', 'layout': 'C',
+                  'simplifier': 'rdp_fixed', 'length': n, 'detector': pick(rng, ['curvature', 'menger']), 't1': 1e-4, 'even': False})
+        yield c
     for i in range(shard_count(total, shard, nshards)):
         r = rng.random()
         if tier == 'thorough' and r < 0.01:
